@@ -321,8 +321,11 @@ impl EventGen for Container {
                     register_raw_elements(&raw, context);
                     return Ok((raw.into_raw_output(), None));
                 }
-                if new_el.name == "text" {
-                    // (a <text> with child elements is positioned like any other)
+                if matches!(new_el.name.as_str(), "text" | "foreignObject")
+                    || (new_el.name == "svg" && context.is_nested())
+                {
+                    // (a <text> with child elements is positioned like any other; so are a
+                    // nested <svg> and a <foreignObject>, as they are when empty)
                     new_el.resolve_position(context)?;
                 } else {
                     new_el.eval_attributes(context)?;
@@ -355,6 +358,7 @@ impl EventGen for Container {
                     // these establish their own viewport: their extent is given by their
                     // x / y / width / height rather than by what they contain.
                     bbox = Some(own_bbox);
+                    context.update_element(&new_el);
                 } else if bbox.is_some() {
                     new_el.content_bbox = bbox;
                     context.update_element(&new_el);
